@@ -177,25 +177,36 @@ JoinReleaseF(s, j, lost) ==
   IF ~lost /\ s.st[x] = "Transferring" THEN [s EXCEPT !.st[x] = "Active", !.jpc[j] = "done"]
   ELSE [s EXCEPT !.jpc[j] = "done"]
 
-(* ---- LEAVE of l (lpc: idle -> try -> lock2 -> locked -> adv -> left -> rel -> done | failed) *)
+(* ---- LEAVE of l (lpc: idle -> try -> read -> lock2 -> locked -> adv -> left -> rel -> done | failed) *)
 LeaveStartEn(s, l) == s.lpc[l] = "idle" /\ s.st[l] \in {"Joining", "Active", "Transferring"}
 LeaveStartF(s, l) == [s EXCEPT !.lpc[l] = "try"]
 
 (* RequestToLeave at the successor sc *)
 SuccGrantsLeave(s, sc, l) == s.st[sc] = "Active" /\ (FixLeave => s.pred[sc] = l)
-(* executeLeave up to the gate between the two lock acquisitions (asymmetric order by identifier) *)
-LeaveFirstEn(s, l) == s.lpc[l] = "try"
+(* executeLeave, first part: the leaver reads its predecessor and successor pointers.  The locks are taken afterwards with these
+   (possibly outdated) values: the window in which a join between the leaver and its successor slips through unless the successor
+   checks that the leaver is its predecessor (FixLeave) *)
 LeaveRetry(s, l) == IF s.ltry[l] + 1 >= MaxTry THEN [s EXCEPT !.lpc[l] = "failed", !.ltry[l] = @ + 1]
-                    ELSE [s EXCEPT !.ltry[l] = @ + 1]
-LeaveFirstF(s, l) ==
+                    ELSE [s EXCEPT !.lpc[l] = "try", !.ltry[l] = @ + 1]
+LeaveReadEn(s, l) == s.lpc[l] = "try"
+LeaveReadF(s, l) ==
   LET p == s.pred[l]  sc == Hd(s, l) IN
   IF p = Nil \/ sc = Nil THEN LeaveRetry(Cov(s, "leave-no-neighbour"), l)
   ELSE IF p = l /\ sc = l THEN [Cov(s, "leave-alone") EXCEPT !.lpc[l] = "adv", !.lp[l] = l, !.ls[l] = l]     \* alone: nothing to lock or move
-  ELSE IF s.lay.npos[l] > s.lay.npos[sc] THEN                                            \* successor first
-       (IF SuccGrantsLeave(s, sc, l) THEN [Cov(s, "leave1-succfirst-granted") EXCEPT !.st[sc] = "Transferring", !.lpc[l] = "lock2", !.lp[l] = p, !.ls[l] = sc]
-        ELSE LeaveRetry(Cov(s, IF s.st[sc] = "Active" THEN "leave1-succfirst-refused-not-predecessor" ELSE "leave1-succfirst-refused-busy"), l))
-  ELSE (IF s.st[l] = "Active" THEN [Cov(s, "leave1-selffirst-granted") EXCEPT !.st[l] = "Leaving", !.lpc[l] = "lock2", !.lp[l] = p, !.ls[l] = sc]
+  ELSE [s EXCEPT !.lpc[l] = "read", !.lp[l] = p, !.ls[l] = sc, !.lok[l] = (s.pred[sc] = l)]     \* lok (ghost): the successor still named the leaver as predecessor when it was read
+
+HoldsKeys(s, l) == (IF \E k \in KeysOf(s.lay) : Present(s.store[l][k]) THEN "-with-keys" ELSE "") \o (IF s.lok[l] THEN "-stale-read" ELSE "")
+(* first lock (asymmetric order by identifier: the successor's lock first when the leaver has the larger id) *)
+LeaveFirstEn(s, l) == s.lpc[l] = "read"
+LeaveFirstF(s, l) ==
+  LET sc == s.ls[l] IN
+  IF s.lay.npos[l] > s.lay.npos[sc] THEN                                            \* successor first
+       (IF SuccGrantsLeave(s, sc, l) THEN [Cov(s, "leave1-succfirst-granted") EXCEPT !.st[sc] = "Transferring", !.lpc[l] = "lock2"]
+        ELSE LeaveRetry(Cov(s, IF s.st[sc] = "Active" THEN "leave1-succfirst-refused-not-predecessor" \o HoldsKeys(s, l) ELSE "leave1-succfirst-refused-busy"), l))
+  ELSE (IF s.st[l] = "Active" THEN [Cov(s, "leave1-selffirst-granted") EXCEPT !.st[l] = "Leaving", !.lpc[l] = "lock2"]
         ELSE LeaveRetry(Cov(s, "leave1-selffirst-refused-busy"), l))
+(* both parts in one scheduler segment (no gate between them) *)
+LeaveReadFirstF(s, l) == LET s1 == LeaveReadF(s, l) IN IF s1.lpc[l] = "read" THEN LeaveFirstF(s1, l) ELSE s1
 
 LeaveSecondEn(s, l) == s.lpc[l] = "lock2"
 LeaveSecondF(s, l) ==
@@ -204,7 +215,7 @@ LeaveSecondF(s, l) ==
        (IF s.st[l] = "Active" THEN [Cov(s, "leave2-succfirst-granted") EXCEPT !.st[l] = "Leaving", !.lpc[l] = "locked"]
         ELSE LeaveRetry([Cov(s, "leave2-succfirst-refused-self-busy") EXCEPT !.st[sc] = IF @ = "Transferring" THEN "Active" ELSE @, !.lpc[l] = "try"], l))
   ELSE (IF SuccGrantsLeave(s, sc, l) THEN [Cov(s, "leave2-selffirst-granted") EXCEPT !.st[sc] = "Transferring", !.lpc[l] = "locked"]
-        ELSE LeaveRetry([Cov(s, IF s.st[sc] = "Active" THEN "leave2-selffirst-refused-not-predecessor" ELSE "leave2-selffirst-refused-succ-busy")
+        ELSE LeaveRetry([Cov(s, IF s.st[sc] = "Active" THEN "leave2-selffirst-refused-not-predecessor" \o HoldsKeys(s, l) ELSE "leave2-selffirst-refused-succ-busy")
                          EXCEPT !.st[l] = "Active", !.lpc[l] = "try"], l))
 
 LeaveTransferEn(s, l) == s.lpc[l] = "locked"           \* transferKeysDownward under surrogateMu; surrogate = self
@@ -316,7 +327,7 @@ InitState(lay, members) ==
    cur |-> [k \in KeysOf(lay) |-> EmptyVal],
    jpc |-> [n \in N |-> "idle"], jx |-> [n \in N |-> Nil], jp |-> [n \in N |-> Nil], jsl |-> [n \in N |-> <<>>],
    jtry |-> [n \in N |-> 0],
-   lpc |-> [n \in N |-> "idle"], lp |-> [n \in N |-> Nil], ls |-> [n \in N |-> Nil], ltry |-> [n \in N |-> 0],
+   lpc |-> [n \in N |-> "idle"], lp |-> [n \in N |-> Nil], ls |-> [n \in N |-> Nil], ltry |-> [n \in N |-> 0], lok |-> [n \in N |-> FALSE],
    bad |-> {}, cov |-> {}]
 
 Init == s = InitState(MCLayout, InitMembers) /\ ops = <<>>
@@ -335,6 +346,7 @@ Membership ==
        \/ JoinReleaseEn(s, j) /\ \E lost \in (IF Faults THEN BOOLEAN ELSE {FALSE}) : s' = JoinReleaseF(s, j, lost)
   \/ \E l \in Leavers :
        \/ LeaveStartEn(s, l) /\ s' = LeaveStartF(s, l)
+       \/ LeaveReadEn(s, l) /\ s' = LeaveReadF(s, l)
        \/ LeaveFirstEn(s, l) /\ s' = LeaveFirstF(s, l)
        \/ LeaveSecondEn(s, l) /\ s' = LeaveSecondF(s, l)
        \/ LeaveTransferEn(s, l) /\ s' = LeaveTransferF(s, l)
